@@ -76,7 +76,7 @@ type C09W struct {
 
 type C09R struct {
 	Stream   string
-	Level    int
+	Level    int // -2: long stream family
 	FailAt   int
 	WithData bool
 	Buf      int
@@ -93,7 +93,11 @@ func init() {
 	scenario("C09", "reader", func(r *core.Run, c core.Case) {
 		var p C09R
 		params(c, &p)
-		for _, s := range readerStreams(p.Level) {
+		ss := longStreams()
+		if p.Level >= 0 {
+			ss = readerStreams(p.Level)
+		}
+		for _, s := range ss {
 			if s.Name == p.Stream {
 				c09Reader(r, s, p)
 			}
@@ -120,6 +124,10 @@ func c09Input(writer string) []byte {
 		return append(append([]byte(nil), baseText[:90]...), randBytes(6, 70)...)
 	case "lzmaW-bufio":
 		return append(randBytes(7, 9000), textBytes(3, 3000)...)
+	case "lzma2W-wrap":
+		return randBytes(8, 15000)
+	case "xzW-blockspan":
+		return append(randBytes(9, 100000), textBytes(9, 50000)...)
 	}
 	return baseText[:70]
 }
@@ -158,6 +166,34 @@ func c09Writer(r *core.Run, p C09W) c09Run {
 			rec("Write", n, h, err)
 			n, err = w.Write(in[h:])
 			rec("Write", n, len(in)-h, err)
+			rec("Close", 0, 0, w.Close())
+			rec("Close2", 0, 0, w.Close())
+		case "lzma2W-wrap":
+			// raw chunks of 3000 bytes, each flushed: the third one straddles the wrap of the
+			// 8 KiB encoder ring buffer and is copied with two sink writes
+			res.fmt = "lzma2"
+			w, err := lzma.Writer2Config{DictCap: 4096}.NewWriter2(sink)
+			rec("NewWriter2", 0, 0, err)
+			if err != nil {
+				return
+			}
+			for off := 0; off < len(in); off += 3000 {
+				n, err := w.Write(in[off : off+3000])
+				rec("Write", n, 3000, err)
+				rec("Flush", 0, 0, w.Flush())
+			}
+			rec("Close", 0, 0, w.Close())
+			rec("Close2", 0, 0, w.Close())
+		case "xzW-blockspan":
+			// one Write spanning three blocks, chunks are flushed to the sink inside that call
+			res.fmt = "xz"
+			w, err := xz.WriterConfig{DictCap: 65536, BlockSize: 70000, CheckSum: xz.CRC32}.NewWriter(sink)
+			rec("NewWriter", 0, 0, err)
+			if err != nil {
+				return
+			}
+			n, err := w.Write(in)
+			rec("Write", n, len(in), err)
 			rec("Close", 0, 0, w.Close())
 			rec("Close2", 0, 0, w.Close())
 		case "lzma2W":
@@ -364,7 +400,7 @@ func runC09(r *core.Run) {
 		rd   *C09R
 	}
 	var jobs []job
-	for _, wn := range []string{"xzW", "lzma2W", "lzmaW-bufio", "lzmaW-bytewriter"} {
+	for _, wn := range []string{"xzW", "lzma2W", "lzmaW-bufio", "lzmaW-bytewriter", "lzma2W-wrap", "xzW-blockspan"} {
 		base := c09Writer(r, C09W{Writer: wn, FailAt: -1})
 		if base.pan != nil || base.failed {
 			panic("C09: fault-free run failed")
@@ -393,6 +429,22 @@ func runC09(r *core.Run) {
 		}
 	}
 	streams := readerStreams(level)
+	long := longStreams()
+	for i := range long {
+		s := &long[i]
+		step := 1
+		if !thorough(r) {
+			step = 3
+		}
+		for k := 0; k <= len(s.Data); k += step {
+			for _, wd := range []bool{false, true} {
+				if wd && k == 0 {
+					continue
+				}
+				jobs = append(jobs, job{s: s, rd: &C09R{Stream: s.Name, Level: -2, FailAt: k, WithData: wd, Buf: 16384}})
+			}
+		}
+	}
 	for i := range streams {
 		s := &streams[i]
 		for k := 0; k <= len(s.Data); k++ {
